@@ -712,7 +712,7 @@ def gen_desc(rng, big=False, mirror_heavy=False):
     nsv = rng.choice([0, 1, 2, 3, 3, 4, 5] if not big else [4, 5, 6])
     mirror_names = rng.sample(PORTNAMES, rng.choice([1, 2, 2, 3]))
     types = ['PortMirror', 'PortMirror', 'PortMirror', 'FABNetv4Ext', 'FABNetv4Ext', 'FABNetv6Ext',
-             'FABNetv4', 'L2Bridge', 'L2Bridge', 'L2PTP', 'L2STS']
+             'FABNetv4', 'FABNetv6', 'L3VPN', 'L2Bridge', 'L2Bridge', 'L2PTP', 'L2STS']
     plabel = 0.3
     if mirror_heavy:
         nsv = rng.choice([3, 4, 5, 6])
